@@ -624,7 +624,13 @@ Definition tr_family : list str :=
    [48;98;49;48;49]%N (* 0b101 *);
    [48;111;49;55]%N (* 0o17 *);
    [53;32;351;117;98;97;116;32;50;48;50;48;32;43;32;51;32;104;97;102;116;97]%N (* 5 subat 2020 + 3 hafta *);
-   [49;48;48;32;103;252;110]%N (* 100 gun *)].
+   [49;48;48;32;103;252;110]%N (* 100 gun *);
+   (* a time prints with its zone; tr joins them since /repo fix (time_with_timezone rule) *)
+   [49;50;58;51;48]%N (* 12:30 *);
+   [50;51;58;53;57;58;53;57]%N (* 23:59:59 *);
+   [49;50;58;51;48;32;69;83;84]%N (* 12:30 EST *);
+   [49;50;58;51;48;32;71;77;84;43;51]%N (* 12:30 GMT+3 *);
+   [49;50;58;51;48;58;48;48;32;85;84;67]%N (* 12:30:00 UTC *)].
 
 (* the same values under the other lexable separator conventions and digit settings *)
 Definition sep_family (d : string) : list str :=
@@ -650,7 +656,7 @@ Lemma families_ok :
 Proof. vm_compute. repeat split; reflexivity. Qed.
 
 Lemma families_sizes :
-  length en_family = 127%nat /\ length tr_family = 31%nat /\ length (sep_family ".") = 18%nat /\
+  length en_family = 127%nat /\ length tr_family = 36%nat /\ length (sep_family ".") = 18%nat /\
   length digit_family = 10%nat /\ length digit_settings = 10%nat.
 Proof. vm_compute. repeat split; reflexivity. Qed.
 
@@ -669,7 +675,6 @@ Definition refuted_rows : list (config float * str * str * str) :=
   ; (DC, EN, s "10 hkd", s "HK$10,00")
   ; (DC, EN, s "1 day - 1 day", [])                                         (* C15-K5 zero duration *)
   ; (DC, EN, s "364 days", s "12 months 4 days")                            (* C15-K6 twelve months *)
-  ; (DC, TR, s "12:30", s "12:30:00 UTC")                                   (* C15-K7 tr: time and zone not joined *)
   ; (DC, EN, s "1600000000 to date", s "13 Sep 2020 12:26:40 UTC")          (* C15-K8 date-time *)
   ; (DC, EN, s "5 feb 2020 at 12:30", s "5 Feb 2020 12:30:00 UTC")
   ; (DC, EN, s "5 feb 2020 to unix", s "1580860800")                        (* C15-K9 raw timestamp *)
@@ -699,7 +704,6 @@ Lemma refuted_outputs :
   option_map fst (enter CK15 DC EN (s "10,00 kr")) = Some (s "10,00 kr.") /\
   enter CK15 DC EN [] = None /\
   option_map fst (enter CK15 DC EN (s "12 months 4 days")) = Some (s "1 year 4 days") /\
-  enter CK15 DC TR (s "12:30:00 UTC") = None /\
   enter CK15 DC EN (s "13 Sep 2020 12:26:40 UTC") = None /\
   option_map fst (enter CK15 DC EN (s "1580860800")) = Some (s "1.580.860.800") /\
   option_map fst (enter CK15 DC EN (s "0xCD")) = Some (s "$0,00").
@@ -709,7 +713,7 @@ Proof. vm_compute. repeat split; reflexivity. Qed.
 (* the property in full: for EVERY configuration, language, clock and line *)
 Definition C15_full : Prop := forall ck cfg lang line, Reprintable ck cfg lang line.
 
-(* it does not hold (16 witnesses, 10 mechanisms) ... *)
+(* it does not hold (15 witnesses, 9 mechanisms) ... *)
 Lemma full_refuted : ~ C15_full.
 Proof.
   intro H. destruct (refuted DC EN (s "-0,004") (s "-0")) as [_ Hn]; [left; reflexivity|]. apply Hn. apply H.
